@@ -43,3 +43,16 @@ namespace Kmip
 theorem GenC14_codec_src_err : KmipGen.codecSrc_err = ExpectCodec.codecSrc_err := by decide
 
 end Kmip
+
+namespace Kmip
+
+/-- decoder (decode.go, decode_core.go): the server / client acts on what Decode returns -/
+theorem GenC14_codec_src_dec : KmipGen.codecSrc_dec = ExpectCodec.codecSrc_dec := by decide
+
+/-- struct descriptors (fields.go, types.go) -/
+theorem GenC14_codec_src_desc : KmipGen.codecSrc_desc = ExpectCodec.codecSrc_desc := by decide
+
+/-- dynamic dispatch (BuildFieldValue methods) -/
+theorem GenC14_codec_src_disp : KmipGen.codecSrc_disp = ExpectCodec.codecSrc_disp := by decide
+
+end Kmip
